@@ -26,13 +26,14 @@ external("bacpypes.comm:ServiceAccessPoint.sap_response", "to_sap")
 def due(when, delta):
     return ('at', when) if when is not None else ('now+', delta)
 
+# the summaries speak of any task (the BIPForeign itself is a OneShotTask, its timeout a OneShotDeleteTask): declared for _Task
 contract("bacpypes.task:_Task.install_task", name="bacpypes.task:_Task.install_task[summary, bvll]",
-    params={"self": Obj("bacpypes.task:OneShotTask", taskTime=Token(), isScheduled=Bool()), "when": Maybe(Int(0)), "delta": Maybe(Int(0))},
+    params={"self": Obj("bacpypes.task:_Task", taskTime=Token(), isScheduled=Bool()), "when": Maybe(Int(0)), "delta": Maybe(Int(0))},
     post={"self.isScheduled": "True", "self.taskTime": "due(when, delta)"},
     trusted=True, note="summary of the C14 contracts: installing (re)schedules the task at the given time, replacing an earlier schedule")
 
 contract("bacpypes.task:_Task.suspend_task", name="bacpypes.task:_Task.suspend_task[summary, bvll]",
-    params={"self": Obj("bacpypes.task:OneShotTask", taskTime=Token(), isScheduled=Bool())},
+    params={"self": Obj("bacpypes.task:_Task", taskTime=Token(), isScheduled=Bool())},
     post={"self.isScheduled": "False"},
     trusted=True, note="summary of the C14 contracts: suspending unschedules the task")
 
